@@ -122,7 +122,17 @@ def flags_of(values):
     return out
 
 
-def realise(cell, rng, budget=4000):
+_REALISE_CACHE = {}
+
+
+def realise(cell, rng, budget=1500):
+    key = tuple(sorted((repr(q), r) for q, r in cell.items() if numeric_evaluable(q)))
+    if key not in _REALISE_CACHE:
+        _REALISE_CACHE[key] = _realise(cell, rng, budget)
+    return _REALISE_CACHE[key]
+
+
+def _realise(cell, rng, budget=1500):
     """search exact rational atom values putting every numerically evaluable quantity on its rank.
     -> env dict or None.  Quantities that are not closed arithmetic forms (std, geodesic) are
     independent uninterpreted values and are always realisable (they get the rank itself)."""
@@ -139,7 +149,7 @@ def realise(cell, rng, budget=4000):
         if r != 0:
             units.add(abs(r))
             units.add(abs(r) / 2)
-    units = sorted(units)
+    units = sorted(units)[:4]
     # 1. single-atom quantities: direct assignment
     env0 = {}
     for q, r in qs:
@@ -160,17 +170,18 @@ def realise(cell, rng, budget=4000):
     tried = 0
     # 2. small exhaustive grids, then random
     for u in units:
-        grid = [u * k for k in range(-4, 5)]
-        if len(grid) ** len(free) <= 6561:
+        span = 4 if len(free) <= 3 else (2 if len(free) == 4 else 1)
+        grid = [u * k for k in range(-span, span + 1)]
+        if len(grid) ** len(free) <= 1000:
             for combo in itertools.product(grid, repeat=len(free)):
                 env = dict(env0)
                 env.update(zip(free, combo))
                 tried += 1
                 if ok(env):
                     return env
-                if tried > budget * 4:
+                if tried > budget * 3:
                     break
-    while tried < budget * 8:
+    while tried < budget * 5:
         u = rng.choice(units)
         env = dict(env0)
         for a in free:
@@ -233,3 +244,45 @@ def compare_position(flag_expr, spec_quantities, allowed_fn, rng, result, label,
                 return
     if len(result.samples) < 3:
         result.samples.append(dict(where=label, flag=X.show(flag_expr)[:300], quantities=[X.show(q) for q in order], cells=total))
+
+
+def compare_pair(expr_a, expr_b, relation, rng, result, label, max_cells=20000):
+    """joint cell enumeration of two flag expressions over the same data; relation(flags_a, flags_b) -> bool"""
+    qs = collect_quantities([expr_a, expr_b])
+    # identify equal functions between the two runs (e.g. |x| spelled differently)
+    order = sorted(qs, key=repr)
+    alias = {}
+    canon = []
+    for q in order:
+        for c in canon:
+            if same_function(q, c, rng):
+                alias[q] = c
+                break
+        else:
+            canon.append(q)
+    ea, eb = substitute_alias(expr_a, alias), substitute_alias(expr_b, alias)
+    qs = collect_quantities([ea, eb])
+    order = sorted(qs, key=repr)
+    cands = [candidate_ranks(qs[q]) for q in order]
+    total = 1
+    for c in cands:
+        total *= len(c)
+    if total > max_cells:
+        from .repo import AnalysisError
+        raise AnalysisError(f'{label}: {total} joint order cells exceed the bound')
+    for combo in itertools.product(*cands):
+        cell = dict(zip(order, combo))
+        fa = flags_of(X.eval_values(ea, cell))
+        fb = flags_of(X.eval_values(eb, cell))
+        result.cells += 1
+        result.distinct.add((frozenset(fa), frozenset(fb), tuple(combo)))
+        if not relation(fa, fb):
+            env = realise(cell, rng)
+            if env is None and all(numeric_evaluable(q) for q in order):
+                result.unrealised += 1
+                continue
+            result.mismatches.append(dict(where=label, cell={X.show(q): str(r) for q, r in cell.items()},
+                                          got=sorted(map(str, fa)), allowed=sorted(map(str, fb)),
+                                          witness=None if env is None else {X.show(a): str(v) for a, v in env.items()}))
+            if len(result.mismatches) > 20:
+                return
